@@ -161,6 +161,31 @@ func (w *wInterp) expr(e ast.Expr) wv {
 			return w.bad("index %d out of range [0,%d) in %s", i, len(s), cx(e))
 		}
 		return s[i]
+	case *ast.SliceExpr:
+		// x[lo:hi] shares its elements with x, as in Go (copy into a sub-slice writes through)
+		base, ok := w.expr(t.X).([]wv)
+		if !ok {
+			return w.bad("slice of non-slice %s", cx(e))
+		}
+		lo, hi := int64(0), int64(len(base))
+		if t.Low != nil {
+			v, ok := w.expr(t.Low).(int64)
+			if !ok {
+				return w.bad("non-constant slice bound in %s", cx(e))
+			}
+			lo = v
+		}
+		if t.High != nil {
+			v, ok := w.expr(t.High).(int64)
+			if !ok {
+				return w.bad("non-constant slice bound in %s", cx(e))
+			}
+			hi = v
+		}
+		if lo < 0 || hi < lo || hi > int64(len(base)) {
+			return w.bad("slice bounds [%d:%d] out of range [0,%d] in %s", lo, hi, len(base), cx(e))
+		}
+		return base[lo:hi]
 	case *ast.CallExpr:
 		return w.call(t)
 	}
@@ -862,4 +887,68 @@ func c05segments(p *load.Program, run *report.Run) {
 		run.Violate("segment-geometry", "circuit.Streaming/StreamEval", "", "the two sides use different segment sizes", nil)
 	}
 	run.Floor("segment-stores", 2)
+
+	// every access to a segmented store resolves both levels from one wire id
+	run.Rule("segment-access", "every index into a segmented store (a [][]Wire / [][]Label field of Streaming or StreamEval) is the first level of wires[e>>k][e&(2^k-1)] with the same e at both levels: a segment resolved once for a range of ids wraps around at a segment boundary")
+	for _, f := range pkg.Syntax {
+		for _, d := range f.Decls {
+			fd, ok := d.(*ast.FuncDecl)
+			if !ok || fd.Body == nil {
+				continue
+			}
+			parent := map[ast.Node]ast.Node{}
+			var st []ast.Node
+			ast.Inspect(fd.Body, func(n ast.Node) bool {
+				if n == nil {
+					st = st[:len(st)-1]
+					return true
+				}
+				if len(st) > 0 {
+					parent[n] = st[len(st)-1]
+				}
+				st = append(st, n)
+				return true
+			})
+			ast.Inspect(fd.Body, func(n ast.Node) bool {
+				ix, ok := n.(*ast.IndexExpr)
+				if !ok {
+					return true
+				}
+				sel, ok := ix.X.(*ast.SelectorExpr)
+				if !ok {
+					return true
+				}
+				t := pkg.TypesInfo.TypeOf(sel)
+				outer, ok := t.Underlying().(*types.Slice)
+				if !ok {
+					return true
+				}
+				if _, ok := outer.Elem().Underlying().(*types.Slice); !ok {
+					return true
+				}
+				owner := typeName(pkg.TypesInfo.TypeOf(sel.X))
+				if owner != "Streaming" && owner != "StreamEval" {
+					return true
+				}
+				run.Count("segment-accesses", 1)
+				key := fmt.Sprintf("circuit.%s/<%s>.%s[…]", fd.Name.Name, owner, sel.Sel.Name)
+				up, _ := parent[ix].(*ast.IndexExpr)
+				good := false
+				if up != nil && up.X == ast.Expr(ix) {
+					hi, ok1 := ast.Unparen(ix.Index).(*ast.BinaryExpr)
+					lo, ok2 := ast.Unparen(up.Index).(*ast.BinaryExpr)
+					if ok1 && ok2 && hi.Op == token.SHR && lo.Op == token.AND && types.ExprString(hi.X) == types.ExprString(lo.X) {
+						good = true
+					}
+				}
+				if good {
+					run.OK("segment-access", key, p.Rel(ix.Pos()), "both levels from one id")
+				} else {
+					run.Violate("segment-access", key, p.Rel(ix.Pos()), "a segment of the store is selected without selecting the element from the same wire id: ids beyond the segment's end wrap around to its start instead of moving to the next segment", nil)
+				}
+				return true
+			})
+		}
+	}
+	run.Floor("segment-accesses", 4)
 }
